@@ -166,6 +166,12 @@ def run(ctx) -> None:
     rep.rule("C12.R6", "a gather collects exceptions, or no explicit raise escapes from the gathered coroutines (all siblings are awaited before an error surfaces)", floor=3)
     rep.rule("C12.R7", "every event leaves through the channel that reaches every processor: coroutines deliver with the awaited async method, plain functions with the sync one", floor=20)
     check_delivery_channel(ctx, "C12.R7")
+    # ... and each processor's delivery of an event is complete before the next event (and before shutdown) goes out:
+    # every processor call is awaited inside its own guard, one after the other (a gathered fan-out returns at the first
+    # failure while a healthy processor's delivery is still running — its RunEnd arrives after shutdown)
+    from .c13 import check_delivery_guarded
+
+    check_delivery_guarded(ctx, "C12.R7")
     rep.assume(RUNNER_NO_RAISE_TEXT)
     base = runner_no_raise(db)
     nr = NoRaise(db, base)
